@@ -419,7 +419,7 @@ fn random_srw(rng: &mut Rng, id: usize) -> Srw {
         .map(|_| match rng.below(6) {
             0 => WAct::Zero,
             1 => WAct::Err([2u8, 3, 5, 6][rng.below(4)]),
-            2 => WAct::Part(1 + rng.below(3)),
+            2 => WAct::Part([1usize, 2, 3, 8, 15, 16, 63][rng.below(7)]),
             _ => WAct::Full,
         })
         .collect();
@@ -436,7 +436,7 @@ fn random_ops(rng: &mut Rng, writes: bool) -> Vec<AdOp> {
                 if rng.chance(1, 4) {
                     AdOp::Flush
                 } else {
-                    let l = rng.below(5);
+                    let l = [0usize, 1, 2, 4, 9, 16, 17, 64, 65][rng.below(9)];
                     AdOp::Write(rng.bytes(l, b"XYZ\n"))
                 }
             } else {
@@ -479,6 +479,23 @@ pub fn run(mode: &str, thorough: bool, seed: u64, w: &mut impl std::io::Write) {
                 let (s1, s2) = (mk(1, &big, r1.clone()), mk(2, b"SECONDsecondSECONDsecond", r2.clone()));
                 for ops in &dests4 {
                     chain_line(&s1, &s2, ops, w);
+                    n += 1;
+                }
+            }
+        }
+        // write pass-through: larger payloads, every inner write result in every position, interleaved with reads
+        {
+            let wa = [WAct::Full, WAct::Part(1), WAct::Part(15), WAct::Part(16), WAct::Zero, WAct::Err(2), WAct::Err(5)];
+            let p16: Vec<u8> = (0..16u8).map(|i| b'A' + i).collect();
+            let p64: Vec<u8> = (0..64u8).map(|i| b'a' + i % 26).collect();
+            let wops = vec![AdOp::Write(p16.clone()), AdOp::Read(4), AdOp::Write(p64.clone()), AdOp::Flush, AdOp::Write(b"123456789".to_vec()), AdOp::Read(16)];
+            for ws in seqs(&wa, 3) {
+                for fa in [vec![], vec![Some(5u8)]] {
+                    let mut s2 = mk(2, b"cdcdcdcdcdcdcdcdcdcd", vec![RAct::Data(3, false)]);
+                    s2.wacts = ws.clone();
+                    s2.facts = fa.clone();
+                    let s1 = mk(1, b"AB", vec![]);
+                    chain_line(&s1, &s2, &wops, w);
                     n += 1;
                 }
             }
@@ -535,6 +552,23 @@ pub fn run(mode: &str, thorough: bool, seed: u64, w: &mut impl std::io::Write) {
             for limit in [8u64, 16, 17, 32, 33, (1 << 32) - 1, 1 << 32, (1 << 32) + 1, u64::MAX - 1] {
                 for ops in &dests4 {
                     take_line(&s, limit, ops, w);
+                    n += 1;
+                }
+            }
+        }
+        // write pass-through: larger payloads, every inner write result in every position, interleaved with reads
+        {
+            let wa = [WAct::Full, WAct::Part(1), WAct::Part(15), WAct::Part(16), WAct::Zero, WAct::Err(2), WAct::Err(5)];
+            let p16: Vec<u8> = (0..16u8).map(|i| b'A' + i).collect();
+            let p64: Vec<u8> = (0..64u8).map(|i| b'a' + i % 26).collect();
+            let wops = vec![AdOp::Write(p16.clone()), AdOp::Read(4), AdOp::Write(p64.clone()), AdOp::Flush, AdOp::Write(b"123456789".to_vec()), AdOp::Read(16)];
+            for ws in seqs(&wa, 3) {
+                for fa in [vec![], vec![Some(5u8)]] {
+                    let mut s2 = mk(2, b"cdcdcdcdcdcdcdcdcdcd", vec![RAct::Data(3, false)]);
+                    s2.wacts = ws.clone();
+                    s2.facts = fa.clone();
+                    s2.id = 1;
+                    take_line(&s2, 7, &wops, w);
                     n += 1;
                 }
             }
